@@ -69,6 +69,40 @@ def gen_cases(ctx):
     return cases
 
 
+_EDGE = [None]
+
+
+def near_edge(r, dbm_p, fm, m):
+    """a state (T, P) within 1e-10..1e-5 relative (in P) of a sign change of the EXACT discriminant of the mixture's cubic, or
+    None if the scan along P at a random T finds no sign change"""
+    e = mixgen.eos_args(fm)
+    T = r.uniform(260., 0.98 * float(np.max(fm.Tc))) if float(np.max(fm.Tc)) > 270. else None
+    if T is None:
+        return None
+
+    def disc(P):
+        with np.errstate(all='ignore'):
+            _z, A, B, _a, _b, _y = dbm_p.z_pr(T, P, m, e['Mol_wt'], e['Pc'], e['Tc'], e['omega'], e['delta'].copy(), e['Aij'], e['Bij'],
+                                              e['delta_groups'], e['calc_delta'])
+        return exact_disc(A, B)
+    grid = np.exp(np.linspace(math.log(1e4), math.log(1e8), 40))
+    sg = [disc(P) > 0 for P in grid]
+    flips = [i for i in range(len(grid) - 1) if sg[i] != sg[i + 1]]
+    if not flips:
+        return None
+    i = r.choice(flips)
+    lo, hi = float(grid[i]), float(grid[i + 1])
+    for _ in range(60):
+        mid = math.sqrt(lo * hi)
+        if (disc(mid) > 0) == sg[i]:
+            lo = mid
+        else:
+            hi = mid
+    P = lo * (1. + r.choice([-1., 1.]) * 10 ** r.uniform(-10, -5))
+    _EDGE[0] = (T, P)
+    return _EDGE[0]
+
+
 def run(ctx, lean_ok):
     from tamoc import dbm_p
     import fortran
@@ -98,6 +132,11 @@ def run(ctx, lean_ok):
         elif u < 0.3:
             T, P = r.uniform(380., 450.), math.exp(r.uniform(math.log(1e4), math.log(1e6)))   # light gases hot: A < B+B^2
             tag = 'hot-low-P'
+        elif u < 0.45 and (near_edge(r, dbm_p, fm, m) is not None):
+            # a hair off the EDGE of the three-real-root region (two roots merge: spinodal / near-critical states), where a root
+            # finder's "treat as zero" tolerances decide what is reported
+            T, P = _EDGE[0]
+            tag = 'near-double-root'
         else:
             T, P = mixgen.state(r)
             tag = 'uniform'
@@ -246,7 +285,7 @@ def run(ctx, lean_ok):
     # floors: the run must actually have reached the regimes named in the quantifier
     def tot(sub):
         return sum(v for k, v in ctx.hist.items() if sub in k)
-    floors = {'near-critical': 20, 'hot-low-P': 20, ':real3': 10, 'A<B+B2': 10, ':zero:': 30, ':const:': 30, ':groups:': 30}
+    floors = {'near-double-root': 15, 'near-critical': 20, 'hot-low-P': 20, ':real3': 10, 'A<B+B2': 10, ':zero:': 30, ':const:': 30, ':groups:': 30}
     for sub, need in floors.items():
         ctx.oblige('coverage floor: at least %d states of class %r (got %d)' % (need, sub, tot(sub)), tot(sub) >= need)
     ctx.oblige('coverage floor: finite-difference consistency tests actually ran (%r)' % nfd,
